@@ -514,4 +514,195 @@ theorem tz_not_dashes {o : Option Int} : ¬ TzFrag ['-', '-'] o := by
   · cases h
   · simp at h
 
+/-! ### fractional seconds and the time part -/
+
+theorem scanDigits_bounds (e : Env) (v : Str) : ∀ (fuel i : Nat) (lim : Option Nat), i ≤ v.length →
+    scanDigits e v fuel i lim ≤ v.length ∧ ∀ n, lim = some n → scanDigits e v fuel i lim ≤ i + n := by
+  intro fuel
+  induction fuel with
+  | zero => intro i lim hi; simp [scanDigits, hi]
+  | succ f ih =>
+    intro i lim hi
+    unfold scanDigits
+    split
+    · exact ⟨hi, fun n _ => by omega⟩
+    · rename_i h0
+      split
+      · rename_i c hc
+        split
+        · have hlt : i < v.length := by
+            rcases Nat.lt_or_ge i v.length with h' | h'
+            · exact h'
+            · rw [List.getElem?_eq_none h'] at hc; cases hc
+          obtain ⟨h1, h2⟩ := ih (i + 1) (lim.map (· - 1)) (by omega)
+          refine ⟨h1, ?_⟩
+          intro n hn
+          subst hn
+          have := h2 (n - 1) rfl
+          have hn0 : n ≠ 0 := fun h => h0 (by rw [h])
+          omega
+        · exact ⟨hi, fun n _ => by omega⟩
+      · exact ⟨hi, fun n _ => by omega⟩
+
+theorem AllD_of_append_left {a b : Str} (h : AllD (a ++ b)) : AllD a := (AllD_append.1 h).1
+
+/-- what `parse_fractional_second` has read: nothing, or a point and 1..9 ASCII digits -/
+theorem parseFrac_inv {e : Env} {v : Str} {i : Nat} {f : Int} {p' : PS}
+    (h : parseFractionalSecond e ⟨v, i⟩ = some (f, p')) :
+    ∃ j fr, p' = ⟨v, j⟩ ∧ i ≤ j ∧ (i ≤ v.length → j ≤ v.length) ∧
+      v.drop i = (if fr = [] then [] else '.' :: fr) ++ v.drop j ∧
+      AllD fr ∧ fr.length ≤ 9 ∧ f = ((fracNs fr : Nat) : Int) := by
+  unfold parseFractionalSecond PS.hasMore PS.peek at h
+  simp only at h
+  split at h
+  · rename_i hdot
+    simp only [Bool.and_eq_true, decide_eq_true_eq, beq_iff_eq] at hdot
+    split at h
+    · cases h
+    · rename_i hdig
+      have hdig : (decide (i + 1 < v.length) && (Option.map e.isDigit v[i + 1]?).getD false) = true := by
+        simpa using hdig
+      simp only [Bool.and_eq_true, decide_eq_true_eq] at hdig
+      have hlt1 : i + 1 < v.length := hdig.1
+      cases hc1 : v[i + 1]? with
+      | none => rw [List.getElem?_eq_none_iff] at hc1; omega
+      | some c1 =>
+        have hd1 : e.isDigit c1 = true := by
+          have := hdig.2; rw [hc1] at this; simpa using this
+        unfold parseFixedDigits at h
+        simp only [Option.map_eq_some_iff, Prod.mk.injEq] at h
+        obtain ⟨n, hn, rfl, rfl⟩ := h
+        obtain ⟨_, hd, rfl⟩ := parseInt_inv hn
+        generalize hj : scanDigits e v (v.length + 1) (i + 1) (some 9) = j at *
+        obtain ⟨hb1, hb2⟩ := scanDigits_bounds e v (v.length + 1) (i + 1) (some 9) (by omega)
+        rw [hj] at hb1 hb2
+        have hb2' := hb2 9 rfl
+        have hge : i + 2 ≤ j := by
+          rw [← hj]
+          unfold scanDigits
+          simp only [hc1, hd1, if_true]
+          have : ¬ ((some 9 : Option Nat) = some 0) := by simp
+          simp only [this, if_false]
+          exact scanDigits_ge e v _ _ _
+        have hl : (slice v (i + 1) j).length = j - (i + 1) := slice_length v (i + 1) j hb1
+        have hraw : AllD (slice v (i + 1) j) := by
+          unfold ljust at hd; exact AllD_of_append_left hd
+        have hne : slice v (i + 1) j ≠ [] := by
+          intro h0; rw [h0] at hl; simp at hl; omega
+        refine ⟨j, slice v (i + 1) j, rfl, by omega, fun _ => hb1, ?_, hraw, by omega, ?_⟩
+        · simp only [hne, if_false]
+          rw [drop_of_getElem? hdot.2, drop_split v (i + 1) j (by omega)]; rfl
+        · unfold fracNs ljust
+          rw [digitsNat_eq_dval, dval_append_replicate0]
+  · simp only [Option.some.injEq, Prod.mk.injEq] at h
+    obtain ⟨rfl, rfl⟩ := h
+    exact ⟨i, [], rfl, Nat.le_refl _, fun h => h, by simp, AllD_nil, by simp, by simp [fracNs, digitsNat_eq_dval, dval_nil]⟩
+
+theorem parseVar_S_inv {e : Env} {p : PS} {vals : List (Option Int)} {p' : PS}
+    (h : parseVar e p 'S' = some (vals, p')) :
+    ∃ s p1 f, parseDigits e p 2 = some (s, p1) ∧ parseFractionalSecond e p1 = some (f, p') ∧
+      vals = [some s, some f] := by
+  rw [parseVar_S] at h
+  cases hd : parseDigits e p 2 with
+  | none => rw [hd] at h; cases h
+  | some r =>
+    obtain ⟨s, p1⟩ := r
+    rw [hd] at h
+    simp only [Option.bind_some, Option.map_eq_some_iff, Prod.mk.injEq] at h
+    obtain ⟨⟨f, q⟩, hq, rfl, rfl⟩ := h
+    exact ⟨s, p1, f, rfl, hq, rfl⟩
+
+/-- `%H:%M:%S%z`, inverted -/
+theorem timePart_inv {e : Env} {v : Str} {i : Nat} {r : List (Option Int)}
+    (h : parseLoop e Tables.fmtTime ⟨v, i⟩ = some r) :
+    ∃ (hh mi sec : Nat) (fr : Str) (o : Option Int) (hs ms ss zs : Str),
+      v.drop i = hs ++ ':' :: (ms ++ ':' :: (ss ++ ((if fr = [] then [] else '.' :: fr) ++ zs))) ∧
+      TwoDigits hs hh ∧ TwoDigits ms mi ∧ TwoDigits ss sec ∧ AllD fr ∧ fr.length ≤ 9 ∧ TzFrag zs o ∧
+      r = [some (hh : Int), some (mi : Int), some (sec : Int), some ((fracNs fr : Nat) : Int), o] := by
+  rw [show Tables.fmtTime = '%' :: 'H' :: ':' :: '%' :: 'M' :: ':' :: '%' :: 'S' :: ['%', 'z'] from rfl] at h
+  obtain ⟨vals1, p1, r1, hv1, hr1, rfl⟩ := parseLoop_var_inv h
+  obtain ⟨hh, hH, rfl⟩ := parseVar_two_inv (by decide) hv1
+  obtain ⟨hp1, _⟩ := parseDigits_inv hH
+  subst hp1
+  obtain ⟨p2, hs2, hr2⟩ := parseLoop_lit_inv (by decide) hr1
+  have hj1 := skip_lt hs2
+  obtain ⟨rfl, hc2⟩ := skip_inv hs2
+  obtain ⟨_, hs, kh, hdrop1, hth, rfl⟩ := twoDigits_at hH (by omega)
+  obtain ⟨vals3, p3, r3, hv3, hr3, rfl⟩ := parseLoop_var_inv hr2
+  obtain ⟨mi, hM, rfl⟩ := parseVar_two_inv (by decide) hv3
+  obtain ⟨hp3, _⟩ := parseDigits_inv hM
+  subst hp3
+  obtain ⟨p4, hs4, hr4⟩ := parseLoop_lit_inv (by decide) hr3
+  have hj3 := skip_lt hs4
+  obtain ⟨rfl, hc4⟩ := skip_inv hs4
+  obtain ⟨_, ms, km, hdrop3, htm, rfl⟩ := twoDigits_at hM (by omega)
+  obtain ⟨vals5, p5, r5, hv5, hr5, rfl⟩ := parseLoop_var_inv hr4
+  obtain ⟨sec, p6, f, hS, hF, rfl⟩ := parseVar_S_inv hv5
+  obtain ⟨hp6, _⟩ := parseDigits_inv hS
+  subst hp6
+  obtain ⟨j, fr, rfl, hij, hjl, hdropf, hfr, hfl, rfl⟩ := parseFrac_inv hF
+  obtain ⟨o, rfl, hjle, hz⟩ := parseLoop_z_inv hr5
+  obtain ⟨_, ss, ks, hdrop5, hts, rfl⟩ := twoDigits_at hS (by omega)
+  refine ⟨kh, km, ks, fr, o, hs, ms, ss, v.drop j, ?_, hth, htm, hts, hfr, hfl, hz, by simp⟩
+  rw [hdrop1, drop_of_getElem? hc2, hdrop3, drop_of_getElem? hc4, hdrop5, hdropf]
+
+theorem dval_zero_all {s : Str} (hd : AllD s) (h0 : dval s = 0) : ∀ c ∈ s, c = '0' := by
+  induction s with
+  | nil => intro c hc; cases hc
+  | cons a t ih =>
+    rw [AllD_cons] at hd
+    have e1 : dval (a :: t) = charVal a * 10 ^ t.length + dval t := by
+      unfold dval
+      rw [List.map_cons, Xs.Conv.digitsVal_cons]; simp [charVal]
+    rw [e1] at h0
+    have hp : 0 < 10 ^ t.length := Nat.pow_pos (by decide)
+    have ha0 : charVal a = 0 := by
+      rcases Nat.eq_zero_or_pos (charVal a) with h | h
+      · exact h
+      · have : 0 < charVal a * 10 ^ t.length := Nat.mul_pos h hp
+        omega
+    have ht0 : dval t = 0 := by rw [ha0] at h0; omega
+    intro c hc
+    simp at hc
+    rcases hc with rfl | hc
+    · have := dch_charVal hd.1; rw [ha0] at this; exact this.symm
+    · exact ih hd.2 ht0 c hc
+
+/-- the validated components and the fragments read make an XSD time body -/
+theorem timeBody_of {hs ms ss fr : Str} {h mi sec : Nat} (hh : TwoDigits hs h) (hm : TwoDigits ms mi)
+    (hsx : TwoDigits ss sec) (hfr : AllD fr) (hl : fr.length ≤ 9)
+    (hv : validateTime h mi sec ((fracNs fr : Nat) : Int) = true) :
+    TimeBody (hs ++ ':' :: (ms ++ ':' :: (ss ++ (if fr = [] then [] else '.' :: fr)))) h mi sec fr := by
+  obtain ⟨b1, b2, b3, b4, b5, b6, b7, b8⟩ := validateTime_bounds _ _ _ _ hv
+  by_cases h24 : h = 24
+  · subst h24
+    right
+    unfold validateTime at hv
+    have hz : mi = 0 ∧ sec = 0 ∧ fracNs fr = 0 := by
+      split at hv
+      · cases hv
+      · split at hv
+        · cases hv
+        · rename_i _ hc
+          simp at hc
+          exact ⟨by omega, by omega, by omega⟩
+    obtain ⟨rfl, rfl, hf0⟩ := hz
+    have hfz : dval fr = 0 := by
+      unfold fracNs at hf0
+      rw [digitsNat_eq_dval] at hf0
+      have hp : 0 < 10 ^ (9 - fr.length) := Nat.pow_pos (by decide)
+      rcases Nat.eq_zero_or_pos (dval fr) with h | h
+      · exact h
+      · have : 0 < dval fr * 10 ^ (9 - fr.length) := Nat.mul_pos h hp
+        omega
+    obtain ⟨rfl, _⟩ := twoDigits_zpad hh
+    obtain ⟨rfl, _⟩ := twoDigits_zpad hm
+    obtain ⟨rfl, _⟩ := twoDigits_zpad hsx
+    have e24 : zpad 24 2 = ['2', '4'] := by decide
+    have e00 : zpad 0 2 = ['0', '0'] := by decide
+    exact ⟨rfl, rfl, rfl, dval_zero_all hfr hfz, by rw [e24, e00]; rfl⟩
+  · left
+    exact ⟨hs, ms, ss ++ (if fr = [] then [] else '.' :: fr), ⟨hh, by omega⟩, ⟨hm, by omega⟩,
+      ⟨ss, hsx, by omega, hfr, rfl⟩, rfl⟩
+
 end Proofs.DatesConverse
